@@ -4,3 +4,4 @@ pub mod driver;
 pub mod pipe;
 pub mod node;
 pub mod transport;
+pub mod simnet;
